@@ -49,6 +49,10 @@ func (C14) Explore(x *kernel.Explorer, seed uint64) {
 			}
 			plan.Faults = append(plan.Faults, f)
 		}
+		if r.Chance(1, 10) {
+			// the very first client message (startup / handshake response) with a damaged length
+			plan.Faults = append(plan.Faults, kernel.Fault{Site: c14Streams[0], Nth: 1, Kind: "tiny-length", Arg: int64(r.Intn(1000))})
+		}
 		x.Exec(plan)
 	}
 }
@@ -98,7 +102,10 @@ func (C14) Run(t *testing.T, plan *kernel.Plan, keepLog bool) *kernel.Result {
 					return cell
 				}
 				c := append([]byte{}, cell...)
-				switch (row + col) % 4 {
+				switch (row + col) % 5 {
+				case 4:
+					// cut to a length around the size of a search hash
+					return c[:min(len(c), 31+(row*3+col)%4)]
 				case 0:
 					return c[:len(c)/2]
 				case 1:
